@@ -26,7 +26,7 @@ AREA = "Rpc"
 PROP_FILES = ["Property_C08.v"]
 
 HEADER = (vlib.COQ_HEADER + "From Common Require Import Str Res Cases.\n"
-          "From Rpc Require Import Json Models CorrC08.\n")
+          "From Rpc Require Import Json Models Events CorrC08.\n")
 
 SET_KEYS = ("artists", "composers", "performers")
 CLASSES = ["Ref", "Image", "Artist", "Album", "Track", "TlTrack", "Playlist", "SearchResult"]
@@ -740,9 +740,76 @@ def event_stage(chk, M, specs):
                 except Exception:  # noqa: BLE001
                     chk.monitor_failure("same_form", {"wire": "event", "what": "decode"}, "event payload does not decode to the model", case)
             rows.append((case, f"({g_model(spec)}, {g_json(canon(payload))})"))
+        msg_rows = all_events(chk, M, actor, captured, specs)
     finally:
         handlers.WebSocketHandler.broadcast = original
     eval_cases(chk, "events", "model * json", rows, ["event_case_ok"], ["event_json true m ~ broadcast payload"])
+    eval_cases(chk, "event_messages", "event * json", msg_rows, ["event_msg_ok", "event_decode_ok"],
+               ["encode_event true ev ~ broadcast message", "decode_event (broadcast message) = ev"])
+
+
+def all_events(chk, M, actor, captured, specs):
+    """All fourteen CoreListener events through the real on_event; -> rows (event term, message)."""
+    from mopidy.types import PlaybackState
+
+    rng = vlib.Rng(chk.seed, "C08-events")
+    tls = [s for s in specs if s["cls"] == "TlTrack"]
+    pls = [s for s in specs if s["cls"] == "Playlist"]
+    states = {"paused": ("PsPaused", PlaybackState.PAUSED), "playing": ("PsPlaying", PlaybackState.PLAYING),
+              "stopped": ("PsStopped", PlaybackState.STOPPED)}
+    ints = [0, 1, 100, 59999, 2**31, 2**63, -1]
+    events = []  # (name, kwargs, gallina term, expected plain members)
+    for s in tls:
+        pos = rng.choice(ints)
+        kind = rng.choice(["paused", "resumed", "started", "ended"])
+        tl = build(M, s)
+        if kind == "started":
+            events.append(("track_playback_started", {"tl_track": tl}, f"(EvTrackPlaybackStarted {g_spec(s)})"))
+        else:
+            ctor = {"paused": "EvTrackPlaybackPaused", "resumed": "EvTrackPlaybackResumed", "ended": "EvTrackPlaybackEnded"}[kind]
+            events.append((f"track_playback_{kind}", {"tl_track": tl, "time_position": pos}, f"({ctor} {g_spec(s)} {g_z(pos)})"))
+    for s in pls:
+        events.append(("playlist_changed", {"playlist": build(M, s)}, f"(EvPlaylistChanged {g_spec(s)})"))
+    for a, (ga, va) in states.items():
+        for b, (gb, vb) in states.items():
+            # the core sends enum members; plain strings are what a test double would send
+            events.append(("playback_state_changed", {"old_state": va, "new_state": vb if a != b else b},
+                           f"(EvPlaybackStateChanged {ga} {gb})"))
+    for name, ctor in (("tracklist_changed", "EvTracklistChanged"), ("playlists_loaded", "EvPlaylistsLoaded"),
+                       ("options_changed", "EvOptionsChanged")):
+        events.append((name, {}, ctor))
+    for v in ints:
+        events.append(("volume_changed", {"volume": v}, f"(EvVolumeChanged {g_z(v)})"))
+        events.append(("seeked", {"time_position": v}, f"(EvSeeked {g_z(v)})"))
+    for b in (True, False):
+        events.append(("mute_changed", {"mute": b}, f"(EvMuteChanged {vlib.g_bool(b)})"))
+    for t in STRS:
+        events.append(("stream_title_changed", {"title": t}, f"(EvStreamTitleChanged {g_str(t)})"))
+    for u in URIS:
+        events.append(("playlist_deleted", {"uri": u}, f"(EvPlaylistDeleted {g_str(u)})"))
+    rows = []
+    for name, kwargs, term in events:
+        captured.clear()
+        case = {"event": name, "kwargs": {k: (v.serialize() if hasattr(v, "serialize") else str(v)) for k, v in kwargs.items()}}
+        chk.count(1, nontrivial_key="eventmsg:" + name + sort_key(case["kwargs"]))
+        chk.dist("eventmsg:" + name)
+        try:
+            actor.on_event(name, None, **dict(kwargs))
+            msg = json.loads(captured[0])
+        except Exception as exc:  # noqa: BLE001
+            chk.monitor_failure("same_form", {"wire": "event", "what": "raised", "event": name},
+                                f"on_event raised {type(exc).__name__}", case)
+            continue
+        # monitor: the message names the event and carries exactly its keyword arguments
+        if msg.get("event") != name or set(msg) != set(kwargs) | {"event"}:
+            chk.monitor_failure("same_form", {"wire": "event", "what": "members", "event": name},
+                                "event message does not carry the event name and exactly its arguments", case)
+        for k, v in kwargs.items():
+            if not hasattr(v, "serialize") and msg.get(k) != (v.value if hasattr(v, "value") else v):
+                chk.monitor_failure("same_form", {"wire": "event", "what": "scalar", "event": name},
+                                    f"scalar argument {k} changed on the wire", case)
+        rows.append((case, f"({term}, {g_json(canon(msg))})"))
+    return rows
 
 
 def storage_stage(chk, M, specs):
